@@ -45,16 +45,16 @@ def mc_runs(quick):
                      c(K=1, N=2, NumServers=3, MaxShares=2, Ops=both), hold, PROPERTIES, None))
     else:
         runs.append(("2-of-3 on 4 servers, <= 3 shares, publish and in-place update, one dimension per behaviour, any order",
-                     c(MaxShares=3, Ops=both, MaxUnreached=2, MaxFaults=2, MaxInterf=2, Order='"any"'), hold, PROPERTIES, None))
-        runs.append(("1-of-2 on 3 servers, <= 3 shares, all dimensions at once",
-                     c(K=1, N=2, NumServers=3, MaxShares=3, Ops=both, Feats='{"plain", "retry"}', Combine="TRUE", CellCodes="{1, 2, 3}"),
+                     c(MaxShares=3, Ops=both, MaxUnreached=1, MaxFaults=2, MaxInterf=1, Order='"any"'), hold, PROPERTIES, None))
+        runs.append(("1-of-2 on 3 servers, <= 2 shares, all dimensions at once (with the documented retry)",
+                     c(K=1, N=2, NumServers=3, MaxShares=2, Ops=both, Feats='{"plain", "retry"}', Combine="TRUE"),
                      hold, PROPERTIES, None))
-        runs.append(("2-of-3 on 3 servers, <= 2 shares, all dimensions at once, any order",
-                     c(K=2, N=3, NumServers=3, MaxShares=2, Ops=both, Feats='{"plain"}', Combine="TRUE", Order='"any"'),
+        runs.append(("2-of-3 on 3 servers, <= 2 shares, two faults / two changes behind the publisher's back, any order",
+                     c(K=2, N=3, NumServers=3, MaxShares=2, Ops=both, MaxInterf=2, MaxFaults=2, MaxUnreached=2, Order='"any"'),
                      hold, PROPERTIES, None))
     # the two places where the code departs from the documents: TLC must name both invariants (known findings)
     runs.append(("as written: no retry loop, the in-place update rewrites every known share",
-                 c(K=1, N=2, NumServers=2, MaxShares=2, Ops=both, Fmts='{"MDMF"}', Feats='{"plain", "faults"}', UpdateRule='"code"'),
+                 c(K=1, N=2, NumServers=2, MaxShares=2, Ops=both, Fmts='{"MDMF"}', Feats='{"faults"}', UpdateRule='"code"'),
                  ["X_FailedServersAreReplaced_AsWritten", "X_WrittenSharesAreValid"], [],
                  ["X_FailedServersAreReplaced_AsWritten", "X_WrittenSharesAreValid"]))
     return runs
@@ -106,7 +106,11 @@ def run(ctx):
     ]
     for name, consts, invs, props, expect in mc_runs(quick):
         ctx.constants["MC " + name] = dict(consts)
-        r = ctx.mc("mutable/MCPublishPlan", cfg_text(consts, invs, props), name="MC publish plan: " + name, timeout=3000,
+        cfg = cfg_text(consts, invs, props)
+        if expect is not None:
+            # every violated invariant is to be named (-continue); do not explore beyond a state with an invalid share
+            cfg += "CONSTRAINT X_WrittenSharesAreValid\n"
+        r = ctx.mc("mutable/MCPublishPlan", cfg, name="MC publish plan: " + name, timeout=3000,
                    expect_ok=(expect is None), cont=(expect is not None))
         if os.environ.get("VERIF_SKIP_MC"):
             continue
